@@ -217,6 +217,8 @@ func MemYieldAll(site string) {
 	if t == nil {
 		return
 	}
+	// woken tasks run concurrently until their next scheduling point: the selection map is shared
+	rt.mu.Lock()
 	on, ok := rt.denseSel[site]
 	if !ok {
 		fn, kind := site, ""
@@ -229,6 +231,7 @@ func MemYieldAll(site string) {
 		}
 		rt.denseSel[site] = on
 	}
+	rt.mu.Unlock()
 	if on {
 		rt.park(t, site)
 	}
